@@ -191,10 +191,17 @@ def run_file(case, acc):
     d = tempfile.mkdtemp(prefix='c19-')
     try:
         path = os.path.join(d, 'f.json')
-        s = dump(objs, comp, path)
+        # completion of the dump is the signal that the file is there: its content is taken at that very moment as well
+        seen = {}
+        s = RawSink()
+        s.subscribe_to(rx.from_(objs).pipe(rsjson.dump_to_file(path, compression=comp),
+                                           rx.operators.do_action(on_completed=lambda: seen.__setitem__('bytes', open(path, 'rb').read()))))
         acc.evals += 1
         if s.error is not None or s.completed != 1:
             return [viol(comp, 'dump-to-real-file-not-completed', {'error': repr(s.error)})]
+        if seen.get('bytes') != open(path, 'rb').read():
+            return [viol(comp, 'file-not-complete-when-dump-signals-completion', {'bytes_at_completion': len(seen.get('bytes') or b''),
+                                                                              'bytes_afterwards': os.path.getsize(path)})]
         r = load(path, comp)
         acc.evals += 1
         acc.traces += 1
